@@ -249,20 +249,26 @@ def run(ctx):
     sites = []
     for q in ("XL_BOMD.one_step", "XL_ESMD.one_step"):
         f = md.func(q)
-        cdef = [st for st in ast.walk(f) if isinstance(st, ast.Assign) and norm(st.targets[0]) == "cindx"]
-        if len(cdef) != 1:
-            raise AnalysisError(f"{q}: cindx definition not found")
         step_param = f.args.args[2].arg
         writes = [st for st in ast.walk(f) if isinstance(st, ast.Assign) and isinstance(st.targets[0], ast.Subscript)
                   and norm(st.targets[0].value) in ("Pt", "es_amp_t")]
         if not writes:
             raise AnalysisError(f"{q}: history write not found")
+        # the circular index is the local the write slot is computed from (name-independent)
+        local_assigned = {st.targets[0].id: st for st in ast.walk(f) if isinstance(st, ast.Assign) and len(st.targets) == 1 and isinstance(st.targets[0], ast.Name)}
+        ci = sorted({x.id for w in writes for x in ast.walk(w.targets[0].slice) if isinstance(x, ast.Name) and x.id in local_assigned})
+        if len(ci) != 1:
+            raise AnalysisError(f"{q}: the history write slot does not depend on exactly one local index ({ci})")
+        CI = ci[0]
+        cdef = [st for st in ast.walk(f) if isinstance(st, ast.Assign) and norm(st.targets[0]) == CI]
+        if len(cdef) != 1:
+            raise AnalysisError(f"{q}: circular index `{CI}` is not defined exactly once")
         for w in writes:
-            sites.append((q, cdef[0].value, w.targets[0].slice, w, step_param))
+            sites.append((q, cdef[0].value, w.targets[0].slice, w, step_param, CI))
             # value written is the freshly propagated quantity
             ctx.check(norm(w.value) in ("P", "es_amp"), "R3", md, w, q, w, "history slot receives the newly propagated quantity",
                       f"history slot receives `{norm(w.value)}`")
-    for q, cexpr, wexpr, wst, sp_name in sites:
+    for q, cexpr, wexpr, wst, sp_name, CI in sites:
         bad = []
         n = 0
         for m in range(4, 11):
@@ -270,7 +276,7 @@ def run(ctx):
             slot_written_at = {}
             for s in range(0, 3 * m):
                 c = int_eval(cexpr, {**env0, sp_name: s})
-                wslot = int_eval(wexpr, {**env0, "cindx": c})
+                wslot = int_eval(wexpr, {**env0, CI: c})
                 if not (0 <= c < m and 0 <= wslot < m):
                     bad.append((m, s, "range", c, wslot))
                     break
@@ -292,34 +298,49 @@ def run(ctx):
     # restart read
     rfc = md.func("Molecular_Dynamics_Basic.run_from_checkpoint")
     rdefs = {norm(st.targets[0]): st.value for st in ast.walk(rfc) if isinstance(st, ast.Assign) and len(st.targets) == 1 and isinstance(st.targets[0], ast.Name)}
-    need = {"xl_m", "cindx"}
-    if not need <= set(rdefs):
-        raise AnalysisError("run_from_checkpoint: xl_m / cindx not found")
     reads = [n for n in ast.walk(rfc) if isinstance(n, ast.Subscript) and norm(n.value) in ("Pt", "es_amp_t") and isinstance(n.ctx, ast.Load)]
     if len(reads) < 2:
         raise AnalysisError("run_from_checkpoint: restart reads of the history not found")
-    q0, cexpr0, wexpr0, _, spn = sites[0]
+    q0, cexpr0, wexpr0, _, spn, CI0 = sites[0]
+
+    def ck_key(n):
+        """'k' / 'step_done' for <ckpt>['xl_bomd_params']['k'] and <ckpt>['step_done'] whatever the dictionary local is called"""
+        if isinstance(n, ast.Subscript) and isinstance(n.slice, ast.Constant) and isinstance(n.slice.value, str):
+            if n.slice.value == "step_done" and isinstance(n.value, ast.Name):
+                return "step_done"
+            if n.slice.value == "k" and isinstance(n.value, ast.Subscript) and isinstance(n.value.slice, ast.Constant) and n.value.slice.value == "xl_bomd_params":
+                return "k"
+        return None
+
+    def closure_eval(expr, vals, depth=0):
+        """evaluate an integer expression of run_from_checkpoint, resolving locals through their single definitions"""
+        class T(ast.NodeTransformer):
+            def visit_Subscript(self, n):
+                kk = ck_key(n)
+                if kk is not None:
+                    return ast.Constant(vals[kk])
+                return self.generic_visit(n)
+        import copy
+        e2 = T().visit(copy.deepcopy(expr))
+        env = {}
+        for x in ast.walk(e2):
+            if isinstance(x, ast.Name) and x.id in rdefs and depth < 6:
+                env[x.id] = closure_eval(rdefs[x.id], vals, depth + 1)
+        return int_eval(e2, env)
+    # the local that holds the history length on restart: the one defined from ...['k']
+    mlen = [nm for nm, v in rdefs.items() if any(ck_key(x) == "k" for x in ast.walk(v))]
+    if len(mlen) != 1:
+        raise AnalysisError(f"run_from_checkpoint: history length local not found ({mlen})")
     for rd in reads:
         bad = []
         for m in range(4, 11):
             k = m - 1
             for done in range(1, 3 * m):
-                env = {"ckpt['xl_bomd_params']['k']": k, "ckpt['step_done']": done}
-
-                def ev(e, env=env):
-                    class T(ast.NodeTransformer):
-                        def visit_Subscript(self, n):
-                            t = norm(n)
-                            if t in env:
-                                return ast.Constant(env[t])
-                            return self.generic_visit(n)
-                    import copy
-                    return T().visit(copy.deepcopy(e))
-                xl_m = int_eval(ev(rdefs["xl_m"]), {})
-                c = int_eval(ev(rdefs["cindx"]), {"xl_m": xl_m})
-                slot = int_eval(rd.slice, {"xl_m": xl_m, "cindx": c})
+                vals = {"k": k, "step_done": done}
+                xl_m = closure_eval(rdefs[mlen[0]], vals)
+                slot = closure_eval(rd.slice, vals)
                 last_c = int_eval(cexpr0, {"self.m": m, spn: done - 1})
-                last_slot = int_eval(wexpr0, {"self.m": m, "cindx": last_c})
+                last_slot = int_eval(wexpr0, {"self.m": m, CI0: last_c})
                 if xl_m != m or slot != last_slot:
                     bad.append((m, done, slot, last_slot))
         ctx.check(not bad, "R3", md, rd, "Molecular_Dynamics_Basic.run_from_checkpoint", rd,
